@@ -1,5 +1,4 @@
 import collections
-import math
 from abc import ABC, abstractmethod
 from collections.abc import Iterable, Mapping, Sequence
 from enum import Enum, EnumMeta, Flag
@@ -298,7 +297,8 @@ def flag_exact_value_dumper(data):
 
 
 def _extract_non_compound_cases_from_flag(enum: type[FlagT]) -> Sequence[FlagT]:
-    return [case for case in enum.__members__.values() if not math.log2(case.value) % 1]
+    # a member is non-compound if its value is a power of two, zero-valued member (`NONE = 0`) is not a single flag
+    return [case for case in enum.__members__.values() if case.value > 0 and case.value & (case.value - 1) == 0]
 
 
 class FlagByListProvider(BaseFlagProvider):
